@@ -132,6 +132,13 @@ func (t *Tally) Violations() int {
 	return len(t.viol)
 }
 
+// Found returns a copy of the recorded violations.
+func (t *Tally) Found() []FoundViolation {
+	t.mu.Lock()
+	defer t.mu.Unlock()
+	return append([]FoundViolation{}, t.viol...)
+}
+
 // MergeInto adds the tally to the run.
 func (t *Tally) MergeInto(r *Run) {
 	t.mu.Lock()
